@@ -523,6 +523,8 @@ struct Ed<'a> {
     in_closure_inputs: bool,
     wild_n: usize,
     rename_self: bool,
+    /// E26: parameters renamed to the names the contracts were written for (old name, new name)
+    param_renames: Vec<(String, String)>,
 }
 
 impl<'a> Ed<'a> {
@@ -588,6 +590,7 @@ impl<'a> Ed<'a> {
             in_closure_inputs: false,
             wild_n: 0,
             rename_self: false,
+            param_renames: vec![],
         }
     }
     fn push(&mut self, start: usize, end: usize, text: impl Into<String>, kind: &'static str, swallow: bool) {
@@ -804,6 +807,13 @@ impl<'a, 'ast> Visit<'ast> for Ed<'a> {
             let r = e.span().byte_range();
             self.push(r.start, r.end, "vx_self", "E16-mut-self", false);
         }
+        if e.qself.is_none() && e.path.segments.len() == 1 {
+            let id = e.path.segments[0].ident.to_string();
+            if let Some((_, n)) = self.param_renames.iter().find(|(o, _)| *o == id) {
+                let r = e.span().byte_range();
+                self.push(r.start, r.end, n.clone(), "E26-parameter-named-as-recorded", false);
+            }
+        }
         visit::visit_expr_path(self, e);
     }
     fn visit_field_pat(&mut self, e: &'ast syn::FieldPat) {
@@ -993,6 +1003,26 @@ impl<'a, 'ast> Visit<'ast> for Ed<'a> {
                     self.visit_expr(&e.receiver);
                     self.visit_expr(&cd.body);
                     self.visit_expr(&cf.body);
+                    return;
+                }
+            }
+        }
+        // E22 (cont.): `opt.is_some_and(|p| c)` -> `match opt { Some(p) => c, None => false }`,
+        // `opt.is_none_or(|p| c)` -> `match opt { Some(p) => c, None => true }`
+        if self.dir.inline_option && (e.method == "is_some_and" || e.method == "is_none_or") && e.args.len() == 1 {
+            if let syn::Expr::Closure(c) = &e.args[0] {
+                if c.inputs.len() == 1 {
+                    self.closure_idx += 1;
+                    let rs = e.receiver.span().byte_range();
+                    let es = e.span().byte_range();
+                    let bs = c.body.span().byte_range();
+                    let pat = self.src[c.inputs[0].span().byte_range()].to_string();
+                    let none = if e.method == "is_some_and" { "false" } else { "true" };
+                    self.push(rs.start, rs.start, "(match ", "E22-option-combinator-inlined", false);
+                    self.push(rs.end, bs.start, format!(" {{ Some({pat}) => "), "E22-option-combinator-inlined", true);
+                    self.push(bs.end, es.end, format!(", None => {none} }})"), "E22-option-combinator-inlined", true);
+                    self.visit_expr(&e.receiver);
+                    self.visit_expr(&c.body);
                     return;
                 }
             }
@@ -1861,6 +1891,7 @@ fn main() {
     let mut stubs: Vec<String> = vec![];
     let mut nospec = false;
     let mut variants: HashMap<String, usize> = HashMap::new();
+    let mut param_names: HashMap<String, Vec<String>> = HashMap::new();
     let mut i = 1;
     while i < args.len() {
         match args[i].as_str() {
@@ -1891,6 +1922,19 @@ fn main() {
             "--nospec" => {
                 nospec = true;
                 i += 1;
+            }
+            "--params" => {
+                // JSON object: directive key -> parameter names of the function on the unchanged tree (units/baseline.json)
+                if let Ok(t) = fs::read_to_string(&args[i + 1]) {
+                    if let Ok(serde_json::Value::Object(o)) = serde_json::from_str::<serde_json::Value>(&t) {
+                        for (k, v) in o {
+                            if let Some(a) = v.as_array() {
+                                param_names.insert(k, a.iter().map(|x| x.as_str().unwrap_or("").to_string()).collect());
+                            }
+                        }
+                    }
+                }
+                i += 2;
             }
             "--stub" => {
                 stubs = args[i + 1].split("%%").map(|x| x.trim().to_string()).filter(|x| !x.is_empty()).collect();
@@ -2186,6 +2230,7 @@ fn main() {
                 let mut counts: BTreeMap<String, usize> = BTreeMap::new();
                 let emitted: String;
                 let src_range: (usize, usize);
+                let mut fn_params: Vec<String> = vec![];
                 if let Some(k) = d.hoist {
                     // E11: closure literal #k of the function is emitted as a named function; the
                     // signature is hand-written (closure parameter types are inferred in the source)
@@ -2411,6 +2456,40 @@ fn main() {
                             }
                         }
                     }
+                    // E26: a parameter that is `_` now, or carries another name than on the unchanged tree (recorded in
+                    // units/baseline.json, handed in with --params), gets the recorded name: contracts name parameters
+                    let mut cur_params: Vec<String> = vec![];
+                    {
+                        let recorded = param_names.get(&key_sel);
+                        let mut k = 0usize;
+                        for inp in &sig.inputs {
+                            if let syn::FnArg::Typed(pt) = inp {
+                                let want = recorded.and_then(|v| v.get(k)).filter(|n| !n.is_empty() && n.as_str() != "_");
+                                match &*pt.pat {
+                                    syn::Pat::Wild(w) => {
+                                        cur_params.push("_".into());
+                                        let r = w.span().byte_range();
+                                        let name = want.cloned().unwrap_or_else(|| format!("_vx_p{k}"));
+                                        ed.push(r.start, r.end, name, "E26-parameter-named-as-recorded", false);
+                                    }
+                                    syn::Pat::Ident(pi) => {
+                                        let cur = pi.ident.to_string();
+                                        cur_params.push(cur.clone());
+                                        if let Some(w) = want {
+                                            if *w != cur {
+                                                let r = pi.ident.span().byte_range();
+                                                ed.push(r.start, r.end, w.clone(), "E26-parameter-named-as-recorded", false);
+                                                ed.param_renames.push((cur, w.clone()));
+                                            }
+                                        }
+                                    }
+                                    _ => cur_params.push(String::new()),
+                                }
+                                k += 1;
+                            }
+                        }
+                    }
+                    fn_params = cur_params;
                     // visit signature parts + body for automatic edits
                     for inp in &sig.inputs {
                         ed.visit_fn_arg(inp);
@@ -2563,6 +2642,7 @@ fn main() {
                     "name": if d.is_slice && !last_text_fn.is_empty() { last_text_fn.clone() } else if d.hoist.is_some() && !hoist_name.is_empty() { hoist_name.clone() } else { d.name.clone().unwrap_or_else(|| f.sig.ident.to_string()) },
                     "src_lines": [line_of(&src.text, src_range.0), line_of(&src.text, src_range.1)],
                     "src_bytes": [src_range.0, src_range.1],
+                    "params": fn_params,
                     "fn_bytes": [f.sig.span().byte_range().start, f.block.span().byte_range().end],
                     "out_lines": [l0, cur_line(&output)],
                     "awaits_erased": ed.awaits,
